@@ -8,7 +8,7 @@ from typing import Any, Dict, List, Tuple
 import z3
 
 from ..par import run_tasks
-from ..report import CONCRETE, INCONCLUSIVE, Report, describe_function
+from ..report import CONCRETE, INCONCLUSIVE, Report, describe_function, lazy
 from ..sym.runner import discharge
 from ..sym.scalar import Ctx, SReal
 
@@ -199,7 +199,7 @@ def wiring(max_layers: int) -> List[Dict[str, Any]]:
         recs.append({"type": "obligation", "name": f"wiring/TransformerStack layers=1..{max_layers}", "status": CONCRETE,
                      "kind": "structural", "queries": 0,
                      "detail": "real TransformerStack.__init__ with a recording TransformerLayer and an injective residual_scaling: layer i receives (rule(2i,2L), rule(2i+1,2L))"})
-    recs.append({"type": "function", "functions": [describe_function(M.TransformerStack.__init__)]})
+    recs.append({"type": "function", "functions": [describe_function(lazy(lambda: M.TransformerStack.__init__))]})
     return recs
 
 
